@@ -115,6 +115,8 @@ class VTime(EngineBase):
             plan["ops"] = [{"op": "wait_procs", "timeout": timeout,
                             "cb": rng.random() < 0.7}]
             live = [s for s in plan["procs"] if s["kind"] != "never"]
+            if rng.random() < 0.15:
+                plan["dup_input"] = rng.randrange(0, 8)
             if live and rng.random() < 0.15:
                 plan["stale_twin"] = rng.choice(live)["pid"]
                 plan["twin_at"] = rng.randrange(0, 8)
@@ -315,6 +317,9 @@ class VTime(EngineBase):
                     if "twin" in handles:
                         hs.insert(plan.get("twin_at", 0) % (len(hs) + 1),
                                   handles["twin"])
+                    if plan.get("dup_input") is not None and hs:
+                        # the same handle handed in twice
+                        hs.append(hs[plan["dup_input"] % len(hs)])
                     cb = (lambda p: cb_calls.append(p)) if op.get("cb") \
                         else None
                     out = ("value", psutil.wait_procs(hs, timeout=timeout,
